@@ -45,7 +45,7 @@ def gen_program(rng):
     prog = []
     next_id = [1]
     for _ in range(rng.randint(1, 4)):
-        kind = rng.choice(["core", "core", "orm"])
+        kind = rng.choice(["core", "core", "orm", "ormx"])
         stmts = []
         for _ in range(rng.randint(1, 4)):
             x = rng.random()
@@ -65,8 +65,29 @@ def gen_program(rng):
                 stmts.append(["sp", inner, rng.choice(["commit", "rollback"])])
             else:
                 stmts.append(["get", rng.randrange(1, max(2, next_id[0]))])
-        prog.append({"kind": kind, "stmts": stmts, "end": rng.choice(["commit", "commit", "rollback", "leave"])})
+        txn = {"kind": kind, "stmts": stmts, "end": rng.choice(["commit", "commit", "rollback", "leave"])}
+        if kind == "ormx":
+            # Session bound in one of the documented forms, possibly joined into an external
+            # transaction that is then committed or rolled back by its owner
+            txn["bindform"] = rng.choice(BINDFORMS)
+            txn["outer"] = rng.choice(["commit", "rollback", "rollback"])
+        prog.append(txn)
     return prog
+
+
+# scratch databases: a memory-backed directory when there is one (sqlite fsyncs dominate otherwise)
+TMPROOT = "/dev/shm" if os.path.isdir("/dev/shm") and os.access("/dev/shm", os.W_OK) else "/tmp"
+
+BINDFORMS = ("bind_engine", "binds_engine", "binds_table_engine", "bind_conn", "binds_conn", "binds_table_conn")
+
+
+def _session_kw(form, T, eng, conn):
+    target = conn if form.endswith("conn") else eng
+    if form.startswith("bind_"):
+        return {"bind": target}
+    if form.startswith("binds_table"):
+        return {"binds": {T.__table__: target}}
+    return {"binds": {T: target}}
 
 
 def _schema():
@@ -121,6 +142,20 @@ def run_sync(prog, path):
                     elif txn["end"] == "rollback":
                         tr.rollback()
                     # "leave": the context manager exit cleans up
+            elif txn["kind"] == "ormx":
+                with eng.connect() as conn:
+                    ext = conn.begin() if txn["bindform"].endswith("conn") else None
+                    with Session(**_session_kw(txn["bindform"], T, eng, conn)) as s:
+                        for st in txn["stmts"]:
+                            out.append(_orm_stmt(s, T, st))
+                        if txn["end"] == "commit":
+                            s.commit()
+                        elif txn["end"] == "rollback":
+                            s.rollback()
+                    if ext is not None:
+                        out.append(("outer-active", ext.is_active))
+                        if ext.is_active:
+                            ext.commit() if txn["outer"] == "commit" else ext.rollback()
             else:
                 with Session(eng) as s:
                     for st in txn["stmts"]:
@@ -260,7 +295,7 @@ class Injector:
         async def _execute(conn, fn, *a, **kw):
             if inj.armed:
                 inj.count += 1
-                if inj.phase == "dispose":
+                if inj.phase in ("dispose", "close"):
                     inj.dispose_points.append(inj.count)
                 if inj.target is None:
                     # dry run: remember which awaits happen during a context-manager exit
@@ -342,6 +377,20 @@ async def _async_body(eng, prog, out):
                     await tr.commit()
                 elif txn["end"] == "rollback":
                     await tr.rollback()
+        elif txn["kind"] == "ormx":
+            async with eng.connect() as conn:
+                ext = (await conn.begin()) if txn["bindform"].endswith("conn") else None
+                async with AsyncSession(**_session_kw(txn["bindform"], T, eng, conn)) as s:
+                    for st in txn["stmts"]:
+                        out.append(await _aorm_stmt(s, T, st))
+                    if txn["end"] == "commit":
+                        await s.commit()
+                    elif txn["end"] == "rollback":
+                        await s.rollback()
+                if ext is not None:
+                    out.append(("outer-active", ext.is_active))
+                    if ext.is_active:
+                        await (ext.commit() if txn["outer"] == "commit" else ext.rollback())
         else:
             async with AsyncSession(eng) as s:
                 for st in txn["stmts"]:
@@ -494,6 +543,23 @@ def run_async_pool(case, rng_seed):
         await_(asyncio.sleep(0))
         return dbapi.connect()
 
+    # driver-level close() / rollback() suspend too (every asyncio driver awaits there); an op
+    # ["cix", k, where] gives a connection back with the task cancelled exactly at that await
+    my_cancel = {}
+
+    def on_call(kind, conn):
+        import greenlet
+
+        if kind in ("close", "rollback") and getattr(greenlet.getcurrent(), "__sqlalchemy_greenlet_provider__", False):
+            if kind == "close":
+                conn.closed = True  # the driver has issued the close; the await is for its completion
+            if my_cancel.get(tid()) == kind:
+                my_cancel[tid()] = None
+                asyncio.current_task().cancel()
+            await_(asyncio.sleep(0))
+        return False
+
+    dbapi.fail = on_call
     pool = cls(creator, pool_size=cfg["size"], max_overflow=cfg["max_overflow"], use_lifo=cfg["lifo"], timeout=cfg["timeout"])
 
     def rid(rec):
@@ -639,34 +705,14 @@ def run_async_pool(case, rng_seed):
                     await asyncio.sleep(op[1])
                 elif held[i]:
                     f = held[i].pop(op[1] % len(held[i]))
-                    if op[0] == "ci":
-                        orig_close = pbase._ConnectionRecord.close
-
-                        def close(rec_self):
-                            caller = __import__("sys")._getframe(1).f_code.co_name
-                            if caller == "_do_return_conn":
-                                log("cl")
-                            return orig_close(rec_self)
-
-                        pbase._ConnectionRecord.close = close
+                    if op[0] in ("ci", "cix"):
+                        my_cancel[i] = op[2] if op[0] == "cix" else None
                         try:
                             await greenlet_spawn(f.close)
                         finally:
-                            pbase._ConnectionRecord.close = orig_close
+                            my_cancel[i] = None
                     else:
-                        pbase_close = pbase._ConnectionRecord.close
-
-                        def close2(rec_self):
-                            caller = __import__("sys")._getframe(1).f_code.co_name
-                            if caller == "_do_return_conn":
-                                log("cl")
-                            return pbase_close(rec_self)
-
-                        pbase._ConnectionRecord.close = close2
-                        try:
-                            await greenlet_spawn(f.invalidate)
-                        finally:
-                            pbase._ConnectionRecord.close = pbase_close
+                        await greenlet_spawn(f.invalidate)
                     outcomes[i].append("ok")
                 check()
             except asyncio.CancelledError:
@@ -717,9 +763,26 @@ def run_async_pool(case, rng_seed):
         lg.addHandler(logging.NullHandler())
         lg.propagate = False
         lg._verif_silenced = True
-    with warnings.catch_warnings():
-        warnings.simplefilter("ignore")
-        asyncio.run(main())
+    hl = logging.getLogger(cls.__module__)  # the traced subclass logs under its own module name
+    if not getattr(hl, "_verif_silenced", False):
+        hl.addHandler(logging.NullHandler())
+        hl.propagate = False
+        hl._verif_silenced = True
+    orig_close = pbase._ConnectionRecord.close
+
+    def close(rec_self):
+        # record.close() from _do_return_conn (queue full)
+        if sys._getframe(1).f_code.co_name == "_do_return_conn":
+            log("cl")
+        return orig_close(rec_self)
+
+    pbase._ConnectionRecord.close = close
+    try:
+        with warnings.catch_warnings():
+            warnings.simplefilter("ignore")
+            asyncio.run(main())
+    finally:
+        pbase._ConnectionRecord.close = orig_close
     live, co = res["live"], res["co"]
     if co != live:
         failures.append(("checkedout-mismatch", "checkedout()=%d but %d live checkouts" % (co, live)))
@@ -743,15 +806,52 @@ def gen_pool_case(rng):
                 ops.append(["co"])
                 h += 1
             else:
-                ops.append([rng.choice(["ci", "ci", "inv"]), rng.randrange(3)])
+                kind = rng.choice(["ci", "ci", "ci", "inv", "cix"])
+                ops.append([kind, rng.randrange(3)] + ([rng.choice(["close", "close", "rollback"])] if kind == "cix" else []))
                 h -= 1
+                if kind == "cix":
+                    break  # (the task ends there when the cancellation is delivered)
         progs.append(ops)
     cancels = [[rng.randrange(nt), rng.randint(1, 12)]] if rng.random() < 0.6 else []
     return {"cfg": cfg, "programs": progs, "cancels": cancels}
 
 
+def _pool_directed():
+    """every way an interruption can land in the give-back path: queue has room / queue full
+    (the connection is closed and the overflow counter decremented), cancelled at the driver's
+    rollback (reset-on-return) or close(), alone or with a second task waiting / holding"""
+    out = []
+    for size, mo in ((1, 1), (1, 0), (2, 1)):
+        n = size + mo
+        for where in ("close", "rollback"):
+            for last in range(n):
+                # one task opens everything, returns all but one, then the cancelled give-back
+                ops = [["co"]] * n + [["ci", 0]] * last + [["cix", 0, where]]
+                for other in ([["co"], ["ci", 0]], [["sleep", 0.0], ["co"], ["ci", 0], ["co"], ["ci", 0]]):
+                    out.append({"cfg": {"size": size, "max_overflow": mo, "lifo": False, "timeout": 3600.0}, "programs": [ops, other], "cancels": []})
+    return out
+
+
+POOL_DIRECTED = _pool_directed()
+
+
 # --------------------------------------------------------------------------- driver
-def check_program(ctx, prog, tmp, idx, max_points, rng):
+def bind_matrix():
+    """one program per bind form; its transactions run through session end x outer end, each
+    inserting its own row and reading the table back, followed by a plain read"""
+    progs = []
+    for form in BINDFORMS:
+        prog, k = [], 0
+        for end in ("commit", "rollback", "leave"):
+            for outer in ("commit", "rollback"):
+                k += 1
+                prog.append({"kind": "ormx", "stmts": [["ins", k, 10 * k], ["sel"]], "end": end, "bindform": form, "outer": outer})
+                prog.append({"kind": "core", "stmts": [["sel"]], "end": "leave"})
+        progs.append(prog)
+    return progs
+
+
+def check_program(ctx, prog, tmp, idx, max_points, rng, key=None):
     case = {"program": prog}
     p1 = os.path.join(tmp, "s%d.db" % idx)
     p2 = os.path.join(tmp, "a%d.db" % idx)
@@ -762,9 +862,9 @@ def check_program(ctx, prog, tmp, idx, max_points, rng):
     ctx.count("awaits<=%d" % (10 * (n_awaits // 10 + 1)))
     if out_s != out_a:
         i = next((k for k, (a, b) in enumerate(zip(out_s, out_a)) if a != b), min(len(out_s), len(out_a)))
-        ctx.violation("c29-sync-async-results-differ", case, "statement #%d: sync %s async %s" % (i, out_s[i : i + 1], out_a[i : i + 1]))
+        ctx.violation(key or "c29-sync-async-results-differ", case, "statement #%d: sync %s async %s" % (i, out_s[i : i + 1], out_a[i : i + 1]))
     if final_a != states[-1]:
-        ctx.violation("c29-sync-async-final-state-differs", case, "sync %s async %s" % (states[-1], final_a))
+        ctx.violation(key or "c29-sync-async-final-state-differs", case, "sync %s async %s" % (states[-1], final_a))
     for key, detail in failures:
         ctx.violation(key, case, detail)
     # (B) cancellation at every (quick: sampled) driver await point
@@ -801,27 +901,35 @@ def check_program(ctx, prog, tmp, idx, max_points, rng):
 
 def run(ctx, deep=False):
     ctx.rule = (
-        "programs = 1-4 transactions (Core with savepoints, or ORM Session) of 1-4 statements over one table, commit/rollback; "
+        "programs = 1-4 transactions (Core with savepoints, ORM Session, or ORM Session bound by bind=/binds={entity|table: ...} to an "
+        "engine or to a connection inside an external transaction that is then committed/rolled back) of 1-4 statements over one "
+        "table, commit/rollback/leave, plus the full bind-form x session-end x outer-end matrix; "
         "each run sync and async (results + final table compared) and re-run async once per driver await point with the task "
-        "cancelled there (quick: <= 8 sampled points per program, thorough: all); AsyncAdaptedQueuePool cases = 2-3 tasks x 2-5 ops "
-        "with optional task cancellation; non-trivial = >= 2 transactions / any cancellation run"
+        "cancelled there (quick: <= 8 points per program: context-manager exits + a sample, thorough: all); AsyncAdaptedQueuePool cases = 2-3 tasks x 2-5 ops "
+        "with optional task cancellation, incl. cancellation at the driver's rollback()/close() await while a connection is given back "
+        "(queue with room / full); connection scenarios = creation / dispose / explicit unshielded close() of AsyncConnection and "
+        "AsyncSession interrupted (cancel and timeout) at driver awaits, then checkedout()==0 and pool_size+max_overflow still obtainable; non-trivial = >= 2 transactions / any cancellation run"
     )
     ctx.trusted.append("aiosqlite + sqlite3 (the only asyncio driver available); greenlet")
     ctx.assumptions.append("asyncpg / psycopg / aiomysql paths are not executable here")
     thorough = ctx.tier == "thorough" or deep
-    tmp = tempfile.mkdtemp(prefix="c29_", dir="/tmp")
+    tmp = tempfile.mkdtemp(prefix="c29_", dir=TMPROOT)
     try:
-        nprog = 40 if thorough else 8
+        nprog = 40 if thorough else 6
         for i in range(nprog):
             rng = random.Random("%s:%d:%d" % (PID, ctx.seed, i))
             prog = gen_program(rng)
-            check_program(ctx, prog, tmp, i, 1000 if thorough else 5, rng)
+            check_program(ctx, prog, tmp, i, 1000 if thorough else 4, rng)
             if i < 3:
                 ctx.sample({"program": prog})
+        # (A') every Session bind form x how the session ends x how the external transaction ends
+        for j, prog in enumerate(bind_matrix()):
+            check_program(ctx, prog, tmp, 1000 + j, 1000 if thorough else 0, random.Random(j), key="c29-session-bind-differs")
+            ctx.count("bind-matrix-programs")
     finally:
         shutil.rmtree(tmp, ignore_errors=True)
     # (D) streamed results reconfigured mid-stream: sync vs async
-    tmp = tempfile.mkdtemp(prefix="c29_", dir="/tmp")
+    tmp = tempfile.mkdtemp(prefix="c29_", dir=TMPROOT)
     try:
         scs = [gen_stream_scenario(random.Random("%s:st:%d:%d" % (PID, ctx.seed, i))) for i in range(500 if thorough else 45)]
         scs = STREAM_DIRECTED + scs
@@ -838,9 +946,10 @@ def run(ctx, deep=False):
     finally:
         shutil.rmtree(tmp, ignore_errors=True)
     cases, impl_out, reqs = [], [], []
-    for i in range(600 if thorough else 100):
+    npool = 600 if thorough else 80
+    for i in range(-len(POOL_DIRECTED), npool):
         rng = random.Random("%s:p:%d:%d" % (PID, ctx.seed, i))
-        case = gen_pool_case(rng)
+        case = gen_pool_case(rng) if i >= 0 else POOL_DIRECTED[i]
         line, impl, failures = run_async_pool(case, rng.randrange(1 << 30))
         ctx.case(("pool", line), nontrivial=True)
         ctx.count("asyncpool-cases")
@@ -861,7 +970,7 @@ def search(ctx, broken):
     """deeper search: more programs with every cancellation point (bounded: each database
     run costs ~0.1 s) and more async-pool cases"""
     sub = type(ctx)(ctx.pid, "quick", ctx.seed + 1, ctx.level)
-    tmp = tempfile.mkdtemp(prefix="c29s_", dir="/tmp")
+    tmp = tempfile.mkdtemp(prefix="c29s_", dir=TMPROOT)
     try:
         for i in range(12):
             rng = random.Random("%s:search:%d:%d" % (PID, ctx.seed, i))
@@ -880,7 +989,7 @@ def search(ctx, broken):
 def replay(ctx, obj):
     c = obj["case"]
     if "program" in c:
-        tmp = tempfile.mkdtemp(prefix="c29r_", dir="/tmp")
+        tmp = tempfile.mkdtemp(prefix="c29r_", dir=TMPROOT)
         try:
             out_s, states = run_sync(c["program"], os.path.join(tmp, "s.db"))
             out_a, final_a, failures, n, cancelled = run_async(c["program"], os.path.join(tmp, "a.db"), c.get("cancel_at"))
@@ -893,7 +1002,7 @@ def replay(ctx, obj):
         print("  oracle:", failures or ("atomic prefix violated" if final_a not in states else "no violation"))
         return bad
     if "stream" in c:
-        tmp = tempfile.mkdtemp(prefix="c29r_", dir="/tmp")
+        tmp = tempfile.mkdtemp(prefix="c29r_", dir=TMPROOT)
         try:
             (so, ao), = stream_differential([c["stream"]], tmp)
         finally:
@@ -903,7 +1012,7 @@ def replay(ctx, obj):
         print("  async:", ao)
         return so != ao
     if "connect_kind" in c:
-        tmp = tempfile.mkdtemp(prefix="c29r_", dir="/tmp")
+        tmp = tempfile.mkdtemp(prefix="c29r_", dir=TMPROOT)
         try:
             failures, _, _, _ = run_connect_scenario(c["connect_kind"], os.path.join(tmp, "c.db"), c["cancel_at"], c["mode"])
         finally:
@@ -1195,21 +1304,29 @@ def stream_differential(scenarios, tmp):
 
 
 # --------------------------------------------------------------------------- (E) interruption while a connection is created
-CONNECT_KINDS = ("first", "overflow", "dispose")
+CONNECT_KINDS = ("first", "overflow", "dispose", "close", "close-rev", "close-txn", "session-close")
 
 
 def run_connect_scenario(kind, path, cancel_at, mode):
     """pool_size 1 / max_overflow 1 engine; the body makes the pool create a physical
-    connection (first checkout / overflow checkout / checkout after dispose()); the user
+    connection (first checkout / overflow checkout / checkout after dispose()) or gives
+    connections back with explicit -- unshielded -- close() calls (kinds close*: two
+    connections, the second return finds the queue full so the pool closes that connection and
+    decrements the overflow counter; AsyncConnection.close / AsyncSession.close, with or
+    without an open transaction to reset); the user
     task is cancelled (mode "cancel") or its asyncio.timeout() expires (mode "timeout") at the
-    cancel_at-th driver await (aiosqlite _connect and _execute).
+    cancel_at-th driver await (aiosqlite _connect and _execute, which includes the driver's
+    rollback and close).
     returns (failures, n_awaits, interrupted?)"""
     import sqlalchemy as sa
     from sqlalchemy.ext.asyncio import create_async_engine
 
+    from sqlalchemy.ext.asyncio import AsyncSession
+
     inj = Injector(cancel_at)
     failures = []
     res = {}
+    handles = []
     if not os.path.exists(path):
         e0 = sa.create_engine("sqlite:///" + path)
         with e0.begin() as c:
@@ -1225,6 +1342,30 @@ def run_connect_scenario(kind, path, cancel_at, mode):
                 await c1.execute(sa.text("select 1"))
                 async with eng.connect() as c2:  # pool_size exhausted: an overflow connection is created
                     await c2.execute(sa.text("select 2"))
+        elif kind in ("close", "close-rev", "close-txn"):
+            a = await eng.connect()
+            handles.append(a)
+            b = await eng.connect()  # overflow connection
+            handles.append(b)
+            await a.execute(sa.text("select 1"))
+            if kind == "close-txn":
+                await b.execute(sa.text("insert into k values (1)"))  # left open: reset-on-return rolls back
+                await a.commit()
+            else:
+                await b.execute(sa.text("select 2"))
+            inj.phase = "close"
+            for c in (b, a) if kind == "close-rev" else (a, b):
+                await c.close()  # the second one finds the queue full
+            inj.phase = "body"
+        elif kind == "session-close":
+            s1, s2 = AsyncSession(eng), AsyncSession(eng)
+            handles.extend([s1, s2])
+            await s1.execute(sa.text("select 1"))
+            await s2.execute(sa.text("insert into k values (2)"))
+            inj.phase = "close"
+            await s1.close()
+            await s2.close()
+            inj.phase = "body"
         else:
             async with eng.connect() as c:
                 await c.execute(sa.text("select 1"))
@@ -1261,7 +1402,22 @@ def run_connect_scenario(kind, path, cancel_at, mode):
             del others, task
             inj.user_task = inj.timeout_cm = None
             await asyncio.sleep(0)
-            where = "%s checkout, %s at await #%s%s" % (kind, mode, cancel_at, " (inside aiosqlite connect)" if inj.in_connect else "")
+            # what the interrupted body did not get to close is closed now (a no-op for what it
+            # did close, including the close() that was interrupted)
+            for h in handles:
+                try:
+                    await h.close()
+                except Exception as e:  # noqa
+                    failures.append(("c29-close-after-interrupted-close-failed", "%s: %s" % (type(e).__name__, str(e)[:80])))
+            del handles[:]
+            where = "%s %s, %s at await #%s%s%s" % (
+                kind,
+                "scenario" if "close" in kind else "checkout",
+                mode,
+                cancel_at,
+                " (inside aiosqlite connect)" if inj.in_connect else "",
+                " (inside an explicit close())" if inj.fired_phase == "close" else "",
+            )
             if inj.fired and not res["interrupted"]:
                 failures.append(("c29-cancellation-swallowed", "the interruption was swallowed (%s)" % where))
             pool = eng.pool
@@ -1296,22 +1452,27 @@ def run_connect_scenario(kind, path, cancel_at, mode):
             asyncio.run(main())
     finally:
         inj.remove()
+    if "close" in kind:
+        # (creation of the connections is what the other kinds are about)
+        return failures, inj.count, res.get("interrupted"), sorted(set(inj.dispose_points))
     return failures, inj.count, res.get("interrupted"), sorted(set(inj.connect_points) | set(inj.dispose_points))
 
 
 def connect_scenarios(ctx, tmp, rng, thorough):
     path = os.path.join(tmp, "conn.db")
     for kind in CONNECT_KINDS:
+        if kind == "close-rev" and not thorough:
+            continue
         _, n, _, cpts = run_connect_scenario(kind, path, None, "cancel")
         for mode in ("cancel", "timeout"):
             if thorough:
                 points = list(range(1, n + 1))
             else:
-                # quick: every await of a physical-connection creation or inside dispose() (and
-                # the one after it), plus 2 random others
-                near = sorted({p for c in cpts for p in (c, c + 1) if p <= n})
+                # quick: every await of a physical-connection creation, inside dispose() or inside
+                # an explicit close() (and the one after it), plus 2 random others
+                near = sorted({p for c in cpts for p in ((c,) if "close" in kind else (c, c + 1)) if p <= n})
                 rest = [p for p in range(1, n + 1) if p not in near]
-                points = sorted(set(near) | set(rng.sample(rest, min(2, len(rest)))))
+                points = sorted(set(near) | set(rng.sample(rest, min(1 if "close" in kind else 2, len(rest)))))
             for k in points:
                 failures, _, interrupted, _ = run_connect_scenario(kind, path, k, mode)
                 case = {"connect_kind": kind, "mode": mode, "cancel_at": k}
